@@ -706,7 +706,7 @@ func ruleStartupSweep(p *Prog, r *Report, rule string) {
 	// queued only when !keep: the append to rem is guarded by the keep phi being false
 	keepPhi := func(v ssa.Value) bool {
 		ph, ok := v.(*ssa.Phi)
-		return ok && ph.Comment == "keep"
+		return ok && phiNamedOr(ph, "keep", func(q *ssa.Phi) bool { return isBoolType(q.Type()) })
 	}
 	app := func(in ssa.Instruction) bool {
 		c, ok := in.(*ssa.Call)
